@@ -556,6 +556,10 @@ func classify(msg, frame, modelCause string) (kind, normFrame string) {
 		strings.Contains(msg, "does not match OneOfSchema discriminator type"):
 		return "oneof_inline", frame
 	}
+	if strings.Contains(frame, "UnitsDefinition") || strings.Contains(frame, "floorDiv") ||
+		strings.Contains(msg, "invalid named capture") {
+		return "bad_multiplier", frame
+	}
 	if modelCause != "" && modelCause != "ok" && modelCause != "reject" {
 		return modelCause, frame
 	}
